@@ -439,6 +439,113 @@ theorem dot_negList : ∀ (c x : List K), dot (negList c) x = - dot c x
     rw [List.map_cons, dot_cons, dot_cons, this]
     simp only [ef_neg]; ring
 
+/-! ### complementary points: the same multipliers certify the perturbed problem (C20 sensitivity) -/
+
+/-- every row with a non-zero multiplier is ACTIVE at `x` (the basis rows stay the basis rows). -/
+def RowsTight : List (Row K) → List K → List K → Prop
+  | [], [], _ => True
+  | r :: rs, yi :: ys, x => (yi ≠ 0 → dot r.coeffs x = r.rhs) ∧ RowsTight rs ys x
+  | _, _, _ => False
+
+/-- every variable with a non-zero reduced cost sits AT the corresponding bound (non-basic variables stay put). -/
+def BndsTight : List K → List (Bnd K) → List K → Prop
+  | [], [], [] => True
+  | d :: ds, b :: bs, x :: xs => (0 < d → b.lo = some x) ∧ (d < 0 → b.hi = some x) ∧ BndsTight ds bs xs
+  | _, _, _ => False
+
+theorem reduce_tight (x : List K) : ∀ (rows : List (Row K)) (c y d : List K) (w : K),
+    reduce c rows y = some (d, w) → RowsTight rows y x → dot c x = dot d x + w
+  | [], c, [], d, w, h, _ => by
+    simp [reduce] at h
+    obtain ⟨rfl, rfl⟩ := h
+    simp
+  | [], c, _ :: _, d, w, h, _ => by simp [reduce] at h
+  | r :: rs, c, [], d, w, h, _ => by simp [reduce] at h
+  | r :: rs, c, y :: ys, d, w, h, ht => by
+    simp only [reduce] at h
+    split at h
+    · rename_i hcond
+      simp only [Bool.and_eq_true, decide_eq_true_eq] at hcond
+      cases hrec : reduce (rowSub y c r.coeffs) rs ys with
+      | none => simp [hrec] at h
+      | some p =>
+        obtain ⟨d', w'⟩ := p
+        simp [hrec] at h
+        obtain ⟨rfl, rfl⟩ := h
+        have ih := reduce_tight x rs (rowSub y c r.coeffs) ys d' w' hrec ht.2
+        rw [dot_rowSub y c r.coeffs x hcond.2.symm] at ih
+        have hy : y * dot r.coeffs x = y * r.rhs := by
+          by_cases h0 : y = 0
+          · simp [h0]
+          · rw [ht.1 h0]
+        linarith
+    · simp at h
+
+theorem bndSum_tight : ∀ (d : List K) (bnds : List (Bnd K)) (x : List K) (s : K),
+    bndSum d bnds = some s → BndsTight d bnds x → dot d x = s
+  | [], [], [], s, h, _ => by
+    simp [bndSum] at h
+    subst h; simp
+  | d :: ds, b :: bs, x :: xs, s, h, ht => by
+    simp only [bndSum] at h
+    cases hterm : bndTerm d b with
+    | none => simp [hterm] at h
+    | some t =>
+      cases hs : bndSum ds bs with
+      | none => simp [hterm, hs] at h
+      | some s' =>
+        simp [hterm, hs] at h
+        subst h
+        have ih := bndSum_tight ds bs xs s' hs ht.2.2
+        have ht' : t = d * x := by
+          unfold bndTerm at hterm
+          simp only [ef_lt, ef_ofInt, Int.cast_zero, decide_eq_true_eq] at hterm
+          split at hterm
+          · rename_i hd
+            rw [ht.1 hd] at hterm
+            simpa using hterm.symm
+          · split at hterm
+            · rename_i _ hd
+              rw [ht.2.1 hd] at hterm
+              simpa using hterm.symm
+            · rename_i h1 h2
+              have : d = 0 := le_antisymm (not_lt.mp h1) (not_lt.mp h2)
+              simp at hterm
+              rw [← hterm, this]; simp
+        rw [dot_cons, ih, ht']
+  | [], [], _ :: _, _, _, ht => by simp [BndsTight] at ht
+  | [], _ :: _, _, _, h, _ => by simp [bndSum] at h
+  | _ :: _, [], _, _, h, _ => by simp [bndSum] at h
+  | _ :: _, _ :: _, [], _, _, ht => by simp [BndsTight] at ht
+
+/-- `δ = t·eᵢ` (length `n`) -/
+def unitVec : Nat → Nat → K → List K
+  | 0, _, _ => []
+  | n + 1, 0, t => t :: List.replicate n 0
+  | n + 1, i + 1, t => 0 :: unitVec n i t
+
+omit [LinearOrder K] [IsStrictOrderedRing K] [FloorRing K] in
+theorem unitVec_length : ∀ (n i : Nat) (t : K), (unitVec n i t).length = n
+  | 0, _, _ => rfl
+  | n + 1, 0, t => by simp [unitVec]
+  | n + 1, i + 1, t => by simp [unitVec, unitVec_length n i t]
+
+theorem dot_replicate_zero : ∀ (y : List K) (n : Nat), dot y (List.replicate n (0 : K)) = 0
+  | [], n => by simp
+  | _ :: _, 0 => by simp
+  | y :: ys, n + 1 => by
+    rw [List.replicate_succ, dot_cons, dot_replicate_zero ys n]; simp
+
+theorem dot_unitVec : ∀ (y : List K) (i : Nat) (yi t : K), y[i]? = some yi →
+    dot y (unitVec y.length i t) = yi * t
+  | [], i, yi, t, h => by simp at h
+  | y :: ys, 0, yi, t, h => by
+    simp at h; subst h
+    simp [unitVec, dot_replicate_zero]
+  | y :: ys, i + 1, yi, t, h => by
+    simp at h
+    simp [unitVec, dot_unitVec ys i yi t h]
+
 /-! ### moving along a ray -/
 
 /-- `x + t·r` -/
